@@ -120,7 +120,8 @@ def invariant(ctx):
                'on a path ending in %s, %s.%s leaves end_step - start_step - len(events) = %r (len=%r, start=%r, end=%r): length and step range disagree' % (
                    p.exit, ci.qualname, n, d, p.state.L, p.state.S, p.state.E), construct='%s.%s keeps end_step - start_step == len (%s exit)' % (ci.qualname, n, p.exit))
       for (node, why) in probs[:3]:
-        ctx.ob('INV/%s' % ci.qualname, owner, node, False, '%s.%s: %s' % (ci.qualname, n, why), construct='%s.%s: %s' % (ci.qualname, n, why[:80]), depends=deps)
+        ctx.ob('INV/%s' % ci.qualname, owner, node, False, '%s.%s: %s' % (ci.qualname, n, why), construct='%s.%s: %s' % (ci.qualname, n, why[:80]), depends=deps,
+               unknown='the interpreter met something it does not model (%s)' % why)
       if not bad and not probs:
         ctx.ob('INV/%s' % ci.qualname, owner, m.node, True, '%d paths of %s.%s (resolved to %s) keep end_step - start_step == len(events)' % (len(paths), ci.qualname, n, m.qualname),
                construct='%s.%s keeps end_step - start_step == len' % (ci.qualname, n))
